@@ -302,6 +302,24 @@ def classify_s1_autofix(before, first):
     return "unclassified"
 
 
+def nested_yield_on_lines(text, linenos):
+    """Is there, on the rewritten lines, a `yield` buried inside a larger expression (not the whole
+    value of an assignment / expression statement)?  The yield-batching fix then first hoists it."""
+    try:
+        tree = ast.parse(_nobom(text))
+    except SyntaxError:
+        return False
+    lineset = set(linenos)
+    for stmt in ast.walk(tree):
+        if not isinstance(stmt, ast.stmt) or stmt.lineno not in lineset:
+            continue
+        direct = getattr(stmt, "value", None)
+        for node in ast.walk(stmt):
+            if isinstance(node, ast.Yield) and node is not direct and not isinstance(stmt, (ast.FunctionDef, ast.AsyncFunctionDef, ast.If, ast.For, ast.While, ast.With, ast.Try)):
+                return True
+    return False
+
+
 def line_inside_multiline_string(text, lineno, strict_end=True):
     """Is physical line `lineno` a continuation line of a string literal spanning several lines
     (so that no comment can be put directly above it)?"""
@@ -503,7 +521,10 @@ class Judge:
         n_old = sum(1 for d in Pf if d["code"] == code and d["desc"] == desc)
         n_new = sum(1 for d in P2f if d["code"] == code and d["desc"] == desc)
         if n_new >= n_old:
-            self.add("S3", step, "autofix:%s:diagnostic-still-reported" % code, "%s: %r still reported %d time(s) after its fix was applied" % (name, desc, n_new),
+            sig = "diagnostic-still-reported"
+            if code in ASYNQ_MERGE and nested_yield_on_lines(old_text, dels):
+                sig = "nested-yield-hoisted-first:diagnostic-still-reported"
+            self.add("S3", step, "autofix:%s:%s" % (code, sig), "%s: %r still reported %d time(s) after its fix was applied" % (name, desc, n_new),
                      file=name, before=old_text, after=new_text)
             return
         # S4a: diagnostics outside the replaced lines are unchanged (shifted).  The change deletes the
